@@ -212,6 +212,21 @@ fn check_position(
                                 format!("at {here}: {def}"),
                             ));
                         }
+                        // the uses bound to the built-in, across all modules
+                        let want: BTreeSet<(usize, usize, usize)> = l
+                            .reso
+                            .uses
+                            .iter()
+                            .filter(|(u, b)| *b == Bind::Builtin && l.occs[*u].text == o.text)
+                            .map(|(u, _)| (l.occs[*u].module, l.occs[*u].start, l.occs[*u].end))
+                            .collect();
+                        let got = got_refs()?;
+                        if got != want {
+                            return Err((
+                                "references | differ from the uses bound to the built-in | on a use of a built-in".into(),
+                                format!("at {here} (`{}`): got {got:?}, uses of the built-in {want:?}", o.text),
+                            ));
+                        }
                     }
                     _ => {}
                 },
